@@ -11,6 +11,9 @@ import Rox.Lemmas.RoundTrip2
 import Rox.Lemmas.RoundTrip4
 import Rox.Lemmas.RoundTrip5
 import Rox.Lemmas.MirrorAll
+import Rox.Lemmas.MirrorNsAll
+import Rox.Lemmas.CompleteAll
+import Rox.Lemmas.CompleteTables
 import Rox.Lemmas.Emits
 import Rox.Props.C01
 
@@ -305,5 +308,42 @@ theorem accepted_tree_mirrors (txt : Bytes) (hv : ValidUtf8 txt) (opt : Opt)
           Rox.Spec.Canon4.expectAllY 0 1 (Rox.Spec.Mirror.docTree x) :=
   Rox.Lemmas.accepted_tree_mirrors Generated.tables C01.generated_tables_ok
     Rox.Lemmas.generated_tables_grammar txt hv opt hdtd d h
+
+/-- **Every well-formed document is accepted** (completeness: every abstract document `x` that is
+well-formed — `Rox.Spec.Grammar.GDocWf` —, whose PI targets are not reserved, that satisfies the
+constraints of "Namespaces in XML 1.0" — `Rox.Spec.Complete.DocNsWf`: reserved prefixes and
+namespace names, no prefix declared twice on a tag, every used prefix declared in scope, attributes
+unique by expanded name — and is within the documented limits — `WithinLimits`: nodes, 2³² − 1
+attributes, 2¹⁶ namespaces —; EVERY concrete syntax `txt` of it — `Rox.Spec.Grammar.RDoc`: any white
+space where `S` is allowed, either quote, `<e/>` or `<e></e>`, optional BOM and XML declaration, any
+Misc around the root; names over the full NameStartChar/NameChar ranges, content over all XML
+characters with references and CDATA sections —; both values of `allow_dtd`, with or without
+positions): `parse` returns a tree. Nothing well-formed in this subset is refused. -/
+theorem wellformed_is_accepted (txt : Bytes) (hv : ValidUtf8 txt) (x : Rox.Spec.Grammar.GDoc)
+    (hwf : Rox.Spec.Grammar.GDocWf Generated.tables x) (hr : Rox.Spec.Grammar.RDoc Generated.tables x txt)
+    (hs : Rox.Spec.Complete.DocStrict x) (hns : Rox.Spec.Complete.DocNsWf x) (opt : Opt)
+    (hlim : Rox.Spec.Complete.WithinLimits x opt) :
+    ∃ d, parse Generated.tables txt opt = .ok d :=
+  Rox.Lemmas.wellformed_is_accepted Generated.tables C01.generated_tables_ok
+    Rox.Lemmas.generated_tables_grammar Rox.Lemmas.generated_tables_complete txt hv x hwf hr hs hns opt hlim
+
+/-- **A well-formed document gets its tree** (the two directions together, default options): under
+the hypotheses of `wellformed_is_accepted`, `parse` returns a tree, and that tree is exactly
+`docTree x'` with namespaces `nsDoc x'` for an abstract document `x'` of which `txt` is the concrete
+syntax (`accepted_tree_mirrors`, `accepted_namespaces_resolve`). -/
+theorem wellformed_document_gets_its_tree (txt : Bytes) (hv : ValidUtf8 txt) (x : Rox.Spec.Grammar.GDoc)
+    (hwf : Rox.Spec.Grammar.GDocWf Generated.tables x) (hr : Rox.Spec.Grammar.RDoc Generated.tables x txt)
+    (hs : Rox.Spec.Complete.DocStrict x) (hns : Rox.Spec.Complete.DocNsWf x) (opt : Opt)
+    (hlim : Rox.Spec.Complete.WithinLimits x opt) (hdtd : opt.allowDtd = false) :
+    ∃ d, parse Generated.tables txt opt = .ok d ∧
+      ∃ x' : Rox.Spec.Grammar.GDoc, Rox.Spec.Grammar.GDocWf Generated.tables x' ∧
+        Rox.Spec.Mirror.DocNormal Generated.tables x' ∧ Rox.Spec.Grammar.RDoc Generated.tables x' txt ∧
+        d.nodes.toList.map (Rox.Spec.Mirror.viewM d) =
+          (none, Rox.Spec.Canon4.YKind.root) ::
+            Rox.Spec.Canon4.expectAllY 0 1 (Rox.Spec.Mirror.docTree x') ∧
+        d.nodes.toList.filterMap (Rox.Spec.MirrorNs.viewNs d) = Rox.Spec.MirrorNs.nsDoc x' := by
+  obtain ⟨d, hd⟩ := wellformed_is_accepted txt hv x hwf hr hs hns opt hlim
+  exact ⟨d, hd, Rox.Lemmas.accepted_namespaces_resolve Generated.tables C01.generated_tables_ok
+    Rox.Lemmas.generated_tables_grammar txt hv opt hdtd d hd⟩
 
 end Rox.Props.C03
